@@ -124,4 +124,19 @@ def runInGoroutine (recovers : Bool) : BodyOutcome → TaskOutcome
   | .err e => .err e
   | .panic i => if recovers then .err (.panicE i) else .processCrash
 
+
+/-! ### several tasks of one step fail -/
+
+/-- what `resolveInterruptCompletedTasks` returns for the completed tasks of a step, in
+    collection order: with `asIs` the wrapped error of the first failed task it meets; otherwise
+    (an aggregation into a new error value) an opaque error that wraps nothing -/
+def reportStep (hasUnwrap asIs : Bool) : List (Key × Option GoErr) → Option GoErr
+  | [] => none
+  | (k, some e) :: rest =>
+    if asIs then some (wrapNode hasUnwrap k e)
+    else
+      -- aggregated: a fresh error value (text only) unless this is the only failure
+      if rest.any (fun t => t.2.isSome) then some (.internal true [] [] (.panicE 0)) else some (wrapNode hasUnwrap k e)
+  | (_, none) :: rest => reportStep hasUnwrap asIs rest
+
 end EinoV.C13
